@@ -58,7 +58,7 @@ EXPECTED_SKELETON = {
     'tr2eul': [
         'if base.ismatrix(T, (4, 4))', 'if not isrot(_, check=check)',
         'if abs(_[0, 2]) < K * _eps and abs(_[1, 2]) < K * _eps', 'if flip', "if unit == 'deg'"],
-    'tr2xyt': [],
+    'tr2xyt': ["if unit == 'deg'"],
 }
 # order in which the K's appear in the source -> name of the constant
 CONST_NAMES = {'tr2rpy': ['c_tr2rpy_xyz', 'c_tr2rpy_zyx', 'c_tr2rpy_yxz'], 'tr2eul': ['c_tr2eul_1', 'c_tr2eul_2'], 'tr2xyt': []}
@@ -269,9 +269,9 @@ def build(ctx, consts):
         for deg in (False, True):
             u = 'deg' if deg else 'rad'
             b = 'true' if deg else 'false'
-            model(f'm_tr2rpy_{o}_{u}', f"tr2rpy_{o}_u O {c} {b} R", [('R', 'M33')], 'O:V3',
+            model(f'm_tr2rpy_{o}_{u}', f"tr2rpy_{o}_u O {c} {b} R", [('R', 'M33')], 'V3',
                   (lambda o, u: lambda R: base.tr2rpy(R, order=o, unit=u))(o, u), Cycle(directed_rpy(o), rand_rpy_matrix(o)))
-            model(f'm_tr2rpy_{alias}_{u}_se3', f"tr2rpy_{o}_u4 O {c} {b} A", [('A', 'M44')], 'O:V3',
+            model(f'm_tr2rpy_{alias}_{u}_se3', f"tr2rpy_{o}_u4 O {c} {b} A", [('A', 'M44')], 'V3',
                   (lambda o, u: lambda A: base.tr2rpy(A, order=o, unit=u))(alias, u), Cycle(directed_rpy(o), rand_rpy_matrix(o), se3=True))
     ce = "(of_Z O c_tr2eul_1) (of_Z O c_tr2eul_2)"
     for flip in (False, True):
@@ -370,6 +370,7 @@ def oracle_rpy(ctx):
                     except ValueError as ex:
                         i, j = SING_ENTRY[order]
                         if 'math domain error' in str(ex) and abs(R[i, j]) > 1 and abs(abs(R[i, j]) - 1) < 10 * EPS:
+                            # repaired by /repo dd68bbe (asin argument clipped); reported again if it comes back
                             ctx.fail('oracle:rpy:singular:asin-domain-error',
                                      f"tr2rpy (via {site}) raises ValueError(math domain error): |R[{i},{j}]| = 1 + {abs(R[i, j]) - 1:g} "
                                      f"is inside the 10*eps singular band and math.asin is applied unclipped", rep)
